@@ -360,6 +360,8 @@ func checkC19(c *Ctx) {
 		}
 	}
 
+	checkGeoIPReplaced(c, "C19.2")
+
 	// the policy part: OnReload installs the parsed lists of the NEW configuration field by field (all of them, each
 	// from the field of the same name), and does not re-parse into the live object
 	if f := c.fn("C19.2", lib, "RegistrationManager", "OnReload"); f != nil && len(f.Params) == 2 {
@@ -1204,5 +1206,60 @@ func checkPolicyListWriters(c *Ctx, rule string) {
 	}
 	if n == 0 {
 		r.Unk(rule, "stores to the enforced lists", token.NoPos, "", "none found")
+	}
+}
+
+// checkGeoIPReplaced (C19.2, C03.14): the GeoIP database of the registration manager is an interface the connection
+// handler and the ingest workers call without a nil test. It is (re)placed only by what geoip.New returned when the
+// open did not fail: on the edge "err != nil and not ErrMissingDB" the result is nil, and storing it makes the next
+// connection (or registration) panic the station.
+func checkGeoIPReplaced(c *Ctx, rule string) {
+	r := c.R
+	n := 0
+	for _, f := range c.funcsOfPkgs("pkg/station/lib") {
+		for _, st := range fieldStores(f, "lib.RegistrationManager", "GeoIP") {
+			n++
+			src := stripConv(st.Val)
+			ex, _ := src.(*ssa.Extract)
+			var call *ssa.Call
+			if ex != nil && ex.Index == 0 {
+				call, _ = ex.Tuple.(*ssa.Call)
+			}
+			if call == nil {
+				if al, isAlloc := src.(*ssa.Alloc); isAlloc || src == nil {
+					_ = al
+				}
+				if _, isMk := st.Val.(*ssa.MakeInterface); isMk {
+					// a concrete database value built in place (never nil)
+					r.OK(rule, fnName(f)+": RegistrationManager.GeoIP <- a database value", st.Pos(), pathOf(st.Val))
+					continue
+				}
+				r.Unk(rule, fnName(f)+": source of RegistrationManager.GeoIP", st.Pos(), fnName(f), "not the first result of a call: "+firstN(pathOf(st.Val), 60))
+				continue
+			}
+			name := calleeName(&call.Call)
+			if !strings.HasSuffix(name, "geoip.New") && helperCallee(f, &call.Call) == nil {
+				r.Unk(rule, fnName(f)+": source of RegistrationManager.GeoIP", st.Pos(), fnName(f), "unknown opener "+shortName(name))
+				continue
+			}
+			// edges on which the open is known not to have failed: err == nil, or errors.Is(err, ErrMissingDB)
+			isNil := atomMatcher(errAtoms(call, true)...)
+			blocked := edgesEstablishing(f, func(cond string, pol bool) bool {
+				if isNil(cond, pol) {
+					return true
+				}
+				return pol && strings.Contains(cond, "errors.Is(") && strings.Contains(cond, "ErrMissingDB")
+			})
+			hit, w := reachFrom(f, call, nil, isInstr(st), nil, blocked)
+			if hit {
+				r.Bad(rule, fnName(f)+": RegistrationManager.GeoIP replaced only if the database opened", st.Pos(), fnName(f),
+					"the manager's GeoIP database is replaced by the result of "+shortName(name)+" on a path where the open failed (err != nil and not ErrMissingDB): the result is nil there, and the next connection handler or ingest worker that asks it for a country / AS number panics the station - every pending unauthenticated connection is closed at once", r.blockPath(f, w)...)
+			} else {
+				r.OK(rule, fnName(f)+": RegistrationManager.GeoIP replaced only if the database opened", st.Pos(), "store unreachable from "+shortName(name)+" once the err == nil and errors.Is(err, ErrMissingDB) edges are removed")
+			}
+		}
+	}
+	if n == 0 {
+		r.Unk(rule, "writers of RegistrationManager.GeoIP", token.NoPos, "", "no store found")
 	}
 }
